@@ -617,6 +617,10 @@ func (r *rateLimiter) cleanupUnknownCondition() {
 	}
 
 	for upstream, _ := range upstreamsToDelete {
+		if !r.leaderElector.IsLeader(util.GetShardID(upstream, r.shardCount)) {
+			// only the leader of the upstream's shard may change its state
+			continue
+		}
 		for _, limitStore := range r.limitStoreMap {
 			err := limitStore.DeleteUpstream(upstream)
 			if err != nil {
